@@ -5,7 +5,7 @@ use blsful::inner_types::*;
 use credx::claim::*;
 use credx::credential::{ClaimSchema, Credential, CredentialSchema};
 use credx::issuer::{Issuer, IssuerPublic};
-use credx::knox::accumulator::vb20::{Accumulator, Element, MembershipWitness};
+use credx::knox::accumulator::vb20::{Accumulator, Coefficient, Element, MembershipWitness};
 use credx::knox::bbs::BbsScheme;
 use credx::knox::ps::PsScheme;
 use credx::knox::short_group_sig_core::short_group_traits::ShortGroupSignatureScheme;
@@ -52,6 +52,11 @@ fn case<S: ShortGroupSignatureScheme>(v: &Value) -> Value {
     let nh = v["holders"].as_u64().unwrap_or(3) as usize;
     let mut hs: Vec<H<S>> = (0..nh).map(|_| H { cred: None, handles: vec![], updated: None }).collect();
     let mut steps = vec![];
+    // what an issuer can publish per successful revocation: the revoked elements and the batch coefficients;
+    // a holder catches up on all epochs since its FIRST handle with one multi-batch update
+    let mut epochs: Vec<(Vec<Element>, Vec<Element>, Vec<Coefficient>)> = vec![];
+    let mut first_epoch: Vec<Option<(MembershipWitness, usize)>> = vec![None; nh];
+    let mut shadow_ok = true;
     for (si, o) in v["ops"].as_array().unwrap().iter().enumerate() {
         let k = o["k"].as_str().unwrap();
         let before = issuer.revocation_registry.value;
@@ -63,6 +68,9 @@ fn case<S: ShortGroupSignatureScheme>(v: &Value) -> Value {
                         hs[h].handles.push((si, b.credential.revocation_handle, issuer.revocation_registry.value));
                         if hs[h].updated.is_none() {
                             hs[h].updated = Some((b.credential.revocation_handle, issuer.revocation_registry.value));
+                        }
+                        if first_epoch[h].is_none() {
+                            first_epoch[h] = Some((b.credential.revocation_handle, epochs.len()));
                         }
                         hs[h].cred = Some(b.credential);
                         "ok"
@@ -89,6 +97,9 @@ fn case<S: ShortGroupSignatureScheme>(v: &Value) -> Value {
                                 if hs[h].updated.is_none() {
                                     hs[h].updated = Some((b.credential.revocation_handle, issuer.revocation_registry.value));
                                 }
+                                if first_epoch[h].is_none() {
+                                    first_epoch[h] = Some((b.credential.revocation_handle, epochs.len()));
+                                }
                                 hs[h].cred = Some(b.credential);
                                 "ok"
                             }
@@ -102,6 +113,13 @@ fn case<S: ShortGroupSignatureScheme>(v: &Value) -> Value {
                     Ok(_) => {
                         // everybody applies the public single-step update when exactly one identifier was revoked
                         let after = issuer.revocation_registry.value;
+                        if !ids.is_empty() {
+                            let dels: Vec<Element> = ids.iter().map(|c| Element::hash(c.value.as_bytes())).collect();
+                            let mut shadow = before;
+                            let coeffs = shadow.update_assign(&issuer.revocation_key, &[], &dels);
+                            shadow_ok &= shadow == after;
+                            epochs.push((vec![], dels, coeffs));
+                        }
                         if ids.len() == 1 {
                             let d = Element::hash(ids[0].value.as_bytes());
                             for (hi, h) in hs.iter_mut().enumerate() {
@@ -159,6 +177,13 @@ fn case<S: ShortGroupSignatureScheme>(v: &Value) -> Value {
             if let Some((w, acc_at)) = h.updated {
                 pres.push(json!({"holder": hi, "kind": "public-update", "tracked_to_current": acc_at == ipub.revocation_registry, "out": present::<S>(&ipub, cred, w)}));
             }
+            // the first handle brought up to date with ONE multi-batch update over everything published since
+            if let Some((w0, e0)) = first_epoch[hi] {
+                let mut w = w0;
+                let y = Element::hash(hid(hi as u64).as_bytes());
+                let wu = w.multi_batch_update(y, &epochs[e0..]);
+                pres.push(json!({"holder": hi, "kind": "multi-batch-update", "epochs": epochs.len() - e0, "out": present::<S>(&ipub, cred, wu)}));
+            }
             // another holder's latest handle
             if let Some((oi, other)) = hs.iter().enumerate().find(|(oi, o)| *oi != hi && !o.handles.is_empty()) {
                 let (_, w, _) = other.handles.last().unwrap();
@@ -170,7 +195,7 @@ fn case<S: ShortGroupSignatureScheme>(v: &Value) -> Value {
         steps.push(json!({"r": r, "value_changed": before != issuer.revocation_registry.value, "pres": pres,
                           "active": issuer.revocation_registry.active.iter().cloned().collect::<Vec<_>>()}));
     }
-    json!({"r":"ok","steps":steps})
+    json!({"r":"ok","steps":steps,"shadow_ok":shadow_ok})
 }
 
 pub fn run(_op: &str, v: &Value) -> Value {
